@@ -85,5 +85,7 @@ Definition tbl1 (l : list (nat * nat)) (d : nat) (x : nat) : nat :=
   match find (fun e => fst e =? x) l with Some e => snd e | None => d end.
 Definition tbl2 (l : list (nat * nat * nat)) (d : nat) (x y : nat) : nat :=
   match find (fun e => (fst (fst e) =? x) && (snd (fst e) =? y)) l with Some e => snd e | None => d end.
+Definition tblid (l : list (nat * nat)) (x : nat) : nat :=
+  match find (fun e => fst e =? x) l with Some e => snd e | None => x end.
 Definition tblp (l : list (nat * (nat * nat))) (x : nat) : nat * nat :=
   match find (fun e => fst e =? x) l with Some e => snd e | None => (0, 0) end.
